@@ -32,6 +32,8 @@ def run(repo, rep):
     _memo_rule(repo, rep, 'C17', 'C17.Z1')
     from ..pitfalls import log_rule as _log_rule
     _log_rule(repo, rep, 'C17', 'C17.Z2')
+    from ..pitfalls import zero_rule as _zero_rule
+    _zero_rule(repo, rep, 'C17', 'C17.Z3')
     sc = repo.module('sopclass')
     rep.rule('C17.P8', 'no service function reads an ``except ... as name`` variable after its handler ended (the name is unbound '
              'there: the provider would raise instead of answering)', 1)
